@@ -516,7 +516,9 @@ func (e *kvElection) attemptPriorityTakeover(payloadBytes []byte) error {
 	return nil
 }
 
-func (e *kvElection) becomeFollower() {
+// becomeFollower clears leadership and returns whether the instance was leader.
+// After a stop it only clears the flag: the state stays STOPPED and nothing is started.
+func (e *kvElection) becomeFollower() bool {
 	e.mu.Lock()
 	defer e.mu.Unlock()
 
@@ -529,6 +531,14 @@ func (e *kvElection) becomeFollower() {
 
 	wasLeader := e.isLeader.Load()
 	e.isLeader.Store(false)
+	if !e.running() {
+		if wasLeader {
+			e.recordLeaderDuration()
+			e.leaderStartTime.Store(time.Time{})
+			e.updateIsLeaderMetric()
+		}
+		return wasLeader
+	}
 	e.state.Store(StateFollower)
 	e.lastTransition.Store(time.Now())
 
@@ -556,6 +566,30 @@ func (e *kvElection) becomeFollower() {
 			defer e.wg.Done()
 			e.watchLoop(e.ctx)
 		}()
+	}
+	return wasLeader
+}
+
+// stepDown gives up leadership, if held, and runs the OnDemote callback exactly
+// once for the term that ended. It is a no-op when the instance is not leader,
+// so demotion causes that race with each other or with Stop do not notify twice.
+func (e *kvElection) stepDown(reason string) {
+	if !e.becomeFollower() {
+		return
+	}
+
+	e.mu.RLock()
+	onDemote := e.onDemote
+	e.mu.RUnlock()
+
+	if onDemote != nil {
+		log := e.getLogger()
+		log.Info("leader_demoted",
+			append(e.logWithContext(e.ctx),
+				zap.String("reason", reason),
+			)...,
+		)
+		onDemote()
 	}
 }
 
